@@ -1589,7 +1589,9 @@ CHECKS["C18"] = {
 
 AI_REPLIES = ["OK", "ok", "Ok.", "OK.", "oK", " OK", "OK\n", "OK!", "OK..", "OKAY", "NOT OK", "", "the list is not sorted", "bad \"quoted\" thing\nline2", "ünïcode → reply"]
 AI_FAULTS = ["no-key", "refused", "400-json", "401-plain", "404-json", "404-plain", "bad-json", "no-choices", "null-content", "empty-body", "mid-close"]
-AI_CONTENT = ["alpha", "  beta  ", "say \"hi\"", "back\\slash", "tab\there", "é→ü", "{\"json\": [1, 2]}", "", "k=v1", "line'quote", "emoji 😀", "\\n literal"]
+AI_CONTENT = ["alpha", "  beta  ", "say \"hi\"", "back\\slash", "tab\there", "é→ü", "{\"json\": [1, 2]}", "", "k=v1", "line'quote", "emoji 😀", "\\n literal",
+              # text that looks like a template placeholder or a replacement reference travels verbatim too
+              "WHERE {condition} LIMIT 10", "{block}", "{} {0} {{x}} %s %1$s", "$1 ${name} \\1 $&", "CONDITION: x", "BLOCK (lines 1 - 2):", "```"]
 
 
 def c19_scenario(rnd, k, fault_kind):
@@ -1600,7 +1602,7 @@ def c19_scenario(rnd, k, fault_kind):
     made = []
     for b in range(nblocks):
         p = f"{rnd.choice(['', 'src/'])}a{b % 2}.{rnd.choice(['py', 'sh'])}"
-        cond = rnd.choice(["must be sorted", "no TODO left", "mentions <b> & co", "it's fine", "say \\ twice", "ünï → cond", "a=b; c"]) + f" #{k}.{b}"
+        cond = rnd.choice(["must be sorted", "no TODO left", "mentions <b> & co", "it's fine", "say \\ twice", "ünï → cond", "a=b; c", "keep {block} short", "no {condition} here", "use $1 and {}"]) + f" #{k}.{b}"
         attrs = f" check-ai=\"{cond}\"" if "\"" not in cond else f" check-ai='{cond}'"
         if rnd.random() < 0.3:
             attrs += f" name=\"n{b}\""
